@@ -1241,7 +1241,21 @@ class QasmVisitor:
                     if statement.type.size is None
                     else qasm3_ast.IntegerLiteral(base_size)
                 )
-            statements.append(statement)
+            emitted = statement
+            init_exp = statement.init_expression
+            if init_exp is not None and not isinstance(
+                init_exp, (qasm3_ast.IntegerLiteral, qasm3_ast.BooleanLiteral)
+            ):
+                # the unrolled program keeps no variables or calls: the initial value is folded
+                literal = (
+                    qasm3_ast.BooleanLiteral(bool(init_value))
+                    if isinstance(init_value, (bool, np.bool_))
+                    else qasm3_ast.IntegerLiteral(int(init_value))
+                )
+                emitted = qasm3_ast.ClassicalDeclaration(
+                    statement.type, statement.identifier, literal
+                )
+            statements.append(emitted)
             self._module._add_classical_register(var_name, base_size)
 
         if self._check_only:
